@@ -166,40 +166,133 @@ class Reserved:
         return self.why(name)
 
 
+def always_raises(body) -> Optional[bool]:
+    """True: every path through the statement list ends in a `raise`; False: the list contains no `raise` at all;
+    None: it raises on some paths only (or in a form that is not understood)."""
+    if not body:
+        return False
+    last = body[-1]
+    if isinstance(last, ast.Raise):
+        return True
+    if not any(isinstance(n, ast.Raise) for st in body for n in ast.walk(st)):
+        return False
+    if isinstance(last, ast.If) and last.orelse and always_raises(last.body) and always_raises(last.orelse):
+        return True
+    if isinstance(last, ast.If) and isinstance(last.test, ast.Constant) and last.test.value and always_raises(last.body):
+        return True
+    return None
+
+
+def string_collection(ctx, scope, e: ast.AST, depth: int = 0):
+    """(list of strings, defining statement) when `e` denotes a constant collection of strings: a list / tuple / set literal of
+    string constants, list(...)/tuple(...)/set(...)/frozenset(...) of one, a concatenation of such, a local name with exactly
+    one such definition in function `scope`, or a module-level constant (also imported).  None otherwise.
+    `scope` is a FunctionInfo or a Module."""
+    from engine.srcmodel import FunctionInfo
+    from engine.dataflow import stmt_defs
+    if depth > 6 or e is None:
+        return None
+    if isinstance(e, (ast.List, ast.Tuple, ast.Set)):
+        if all(isinstance(x, ast.Constant) and isinstance(x.value, str) for x in e.elts):
+            return [x.value for x in e.elts], None
+        return None
+    if isinstance(e, ast.Call) and isinstance(e.func, ast.Name) and e.func.id in ("set", "frozenset", "tuple", "list") \
+            and len(e.args) == 1 and not e.keywords:
+        return string_collection(ctx, scope, e.args[0], depth + 1)
+    if isinstance(e, ast.BinOp) and isinstance(e.op, (ast.Add, ast.BitOr)):
+        l, r = string_collection(ctx, scope, e.left, depth + 1), string_collection(ctx, scope, e.right, depth + 1)
+        return (l[0] + r[0], l[1] or r[1]) if l is not None and r is not None else None
+    module = scope.module if isinstance(scope, FunctionInfo) else scope
+    if isinstance(e, ast.Name):
+        if isinstance(scope, FunctionInfo) and ctx.rd(scope).is_local(e.id):
+            if e.id in scope.params:
+                return None
+            defs = [st for st in ctx.cfg(scope).stmts() if e.id in stmt_defs(st)]
+            if len(defs) != 1:
+                return None
+            r = string_collection(ctx, scope, assigned_value(defs[0], e.id), depth + 1)
+            return (r[0], r[1] or defs[0]) if r is not None else None
+        return _module_strings(ctx, module, e.id, depth)
+    if isinstance(e, ast.Attribute):
+        base = ctx.repo.resolve_expr(module, e.value)
+        if base is not None and hasattr(base, "assigns"):
+            return _module_strings(ctx, base, e.attr, depth)
+    return None
+
+
+def _module_strings(ctx, m, name: str, depth: int):
+    if name in m.assigns:
+        sts = m.assigns[name]
+        if len(sts) != 1:
+            return None
+        r = string_collection(ctx, m, assigned_value(sts[0], name), depth + 1)
+        return (r[0], r[1] or sts[0]) if r is not None else None
+    if name in m.imports:
+        src, sym = m.imports[name]
+        tm = ctx.repo.modules.get(src)
+        if tm is not None and sym is not None and sym != "*":
+            return _module_strings(ctx, tm, sym, depth + 1)
+    return None
+
+
 def read_reserved(ctx, rid: str) -> Reserved:
-    """Read the reserved names / name parts from check_vname *by structure*: a list L with `if v in L: <raise>` and a list P
-    with `for d in P: if d in v: <raise>` where v is the function's first parameter; and find the call that applies
-    check_vname to every declared variable name (OperatorTemplate.apply)."""
+    """Read the reserved names / name parts from check_vname *by structure*: a constant string collection L with
+    `if v in L: <raise>` and a collection P with `for d in P: if d in v: <raise>` (or `if any(d in v for d in P): <raise>`),
+    where v is the function's first parameter; the collections may be locals, literals in the test or module-level
+    constants.  Also finds the call that applies check_vname to every declared variable name (OperatorTemplate.apply)."""
     f = ctx.repo.get_func(OPERATOR_REL, "check_vname")
     if not f.params:
         raise AnalysisError(f"{rid}: check_vname has no parameter")
     v = f.params[0]
-    lists: Dict[str, Tuple[List[str], ast.stmt]] = {}
-    for st in f.node.body:
-        if isinstance(st, ast.Assign) and len(st.targets) == 1 and isinstance(st.targets[0], ast.Name) \
-                and isinstance(st.value, (ast.List, ast.Tuple, ast.Set)):
-            vals = [e.value for e in st.value.elts if isinstance(e, ast.Constant) and isinstance(e.value, str)]
-            if len(vals) == len(st.value.elts):
-                lists[st.targets[0].id] = (vals, st)
 
     def raises(body) -> bool:
-        return bool(body) and isinstance(body[-1], ast.Raise)
+        r = always_raises(body)
+        if r is None:
+            raise AnalysisError(f"{rid}: check_vname: the branch `{ast.unparse(body[0])[:60]}…` raises on some paths only (unrecognised)")
+        return r
+
+    def is_v(e) -> bool:
+        return isinstance(e, ast.Name) and e.id == v
+
+    def in_test(t, left_is, right_is):
+        """`<left> in <right>` -> (left, right) when the operands have the requested roles."""
+        if isinstance(t, ast.Compare) and len(t.ops) == 1 and isinstance(t.ops[0], ast.In) and left_is(t.left) \
+                and right_is(t.comparators[0]):
+            return t.left, t.comparators[0]
+        return None
 
     names = parts = names_stmt = parts_stmt = names_test = parts_test = None
     names_raise = parts_raise = False
-    for st in f.node.body:
-        if isinstance(st, ast.If) and isinstance(st.test, ast.Compare) and len(st.test.ops) == 1 \
-                and isinstance(st.test.ops[0], ast.In) and isinstance(st.test.left, ast.Name) and st.test.left.id == v \
-                and isinstance(st.test.comparators[0], ast.Name) and st.test.comparators[0].id in lists:
-            names, names_stmt = lists[st.test.comparators[0].id]
-            names_test, names_raise = st, raises(st.body)
-        if isinstance(st, ast.For) and isinstance(st.iter, ast.Name) and st.iter.id in lists and isinstance(st.target, ast.Name):
+    for st in walk_shallow(f.node):
+        if isinstance(st, ast.If):
+            # `if v in <names>:`
+            m = in_test(st.test, is_v, lambda x: True)
+            if m is not None:
+                r = string_collection(ctx, f, m[1])
+                if r is not None:
+                    if names is not None:
+                        raise AnalysisError(f"{rid}: check_vname tests its parameter against several name tables (unrecognised)")
+                    names, names_stmt = r[0], r[1] or st
+                    names_test, names_raise = st, raises(st.body)
+            # `if any(d in v for d in <parts>):`
+            t = st.test
+            if isinstance(t, ast.Call) and isinstance(t.func, ast.Name) and t.func.id == "any" and len(t.args) == 1 \
+                    and isinstance(t.args[0], (ast.GeneratorExp, ast.ListComp)) and len(t.args[0].generators) == 1:
+                g = t.args[0].generators[0]
+                if isinstance(g.target, ast.Name) and not g.ifs \
+                        and in_test(t.args[0].elt, lambda x: isinstance(x, ast.Name) and x.id == g.target.id, is_v) is not None:
+                    r = string_collection(ctx, f, g.iter)
+                    if r is not None:
+                        parts, parts_stmt = r[0], r[1] or st
+                        parts_test, parts_raise = st, raises(st.body)
+        if isinstance(st, ast.For) and isinstance(st.target, ast.Name):
+            r = string_collection(ctx, f, st.iter)
+            if r is None:
+                continue
             d = st.target.id
             for sub in st.body:
-                if isinstance(sub, ast.If) and isinstance(sub.test, ast.Compare) and len(sub.test.ops) == 1 \
-                        and isinstance(sub.test.ops[0], ast.In) and isinstance(sub.test.left, ast.Name) and sub.test.left.id == d \
-                        and isinstance(sub.test.comparators[0], ast.Name) and sub.test.comparators[0].id == v:
-                    parts, parts_stmt = lists[st.iter.id]
+                if isinstance(sub, ast.If) and in_test(sub.test, lambda x: isinstance(x, ast.Name) and x.id == d, is_v) is not None:
+                    parts, parts_stmt = r[0], r[1] or st
                     parts_test, parts_raise = sub, raises(sub.body)
     if names is None or parts is None:
         raise AnalysisError(f"{rid}: check_vname no longer has the recognised form `if v in <names>: raise` / "
